@@ -340,9 +340,16 @@ class AuthHandler:
                 "An RSA key was specified, but no RSA pubkey algorithms are configured!"  # noqa
             )
         # Check for server-sig-algs if supported & sent
-        server_algo_str = u(
-            self.transport.server_extensions.get("server-sig-algs", b(""))
-        )
+        try:
+            server_algo_str = u(
+                self.transport.server_extensions.get("server-sig-algs", b(""))
+            )
+        except UnicodeDecodeError:
+            # EXT_INFO values are stored undecoded; a name-list that is not
+            # even UTF-8 is the server's protocol error, not ours.
+            raise SSHException(
+                "Server sent a server-sig-algs extension that is not valid UTF-8"  # noqa
+            )
         pubkey_algo = None
         # Prefer to match against server-sig-algs
         if server_algo_str:
